@@ -2,7 +2,7 @@
 import os, re
 from mingus.extra import tunings, tablature
 from mingus.containers import Note, NoteContainer
-from .common import call, nm, txt, integer, Shape
+from .common import again, AGAIN, call, nm, txt, integer, Shape
 from .program import mk_composition, built_ok, mk_container, mk_note
 
 
@@ -84,6 +84,9 @@ def run_case(c):
                 r = call("find_frets", {"p": p, "maxfret": mf}, lambda: [opt(x) for x in t.find_frets(Note().from_int(p), mf)])
                 r["tuning"] = tp
                 R.append(r)
+            r = call("find_frets", {"p": p, "maxfret": 24, "asked": AGAIN}, again(lambda: t.find_frets(Note().from_int(p), 24)), lambda xs: [opt(x) for x in xs])
+            r["tuning"] = tp
+            R.append(r)
             # the same pitch given as text, spelled across the octave line (B# / B## belong to the octave below, Cb / Cbb above)
             o, pc = divmod(p, 12)
             spell = {0: ("B#", o - 1), 1: ("B##", o - 1), 11: ("Cb", o + 1), 10: ("Cbb", o + 1)}.get(pc)
@@ -206,6 +209,22 @@ def run_case(c):
                 r["tab"] = r["out"] if r["ok"] else {"blocks": []}
                 r["out"] = 0
                 R.append(r)
+                if way in ("track", "set_tuning"):
+                    # a tuning named in the call is the tuning of that tab, whatever tuning the track carries (positional and by keyword)
+                    for form, fn in (("argument", lambda: tablature.from_Track(comp2.tracks[0], w + 20, tun)),
+                                     ("keyword", lambda: tablature.from_Track(comp2.tracks[0], maxwidth=w + 20, tuning=tun))):
+                        r = call("tab_Track", {"track": 1, "width": w, "tuning_via": way, "tuning_named_in_the_call": form}, lambda: lex_tab(fn(), tp["strings"]))
+                        r["prog"], r["tuning"] = p, tp
+                        r["tab"] = r["out"] if r["ok"] else {"blocks": []}
+                        r["out"] = 0
+                        R.append(r)
+            # and the other way round: a track without a tuning of its own, the bass tuning named in the call
+            r = call("tab_Track", {"track": 1, "width": w, "tuning_via": "none", "tuning_named_in_the_call": "argument"},
+                     lambda: lex_tab(tablature.from_Track(comp.tracks[0], w + 20, bass), tproj(bass)["strings"]))
+            r["prog"], r["tuning"] = p, tproj(bass)
+            r["tab"] = r["out"] if r["ok"] else {"blocks": []}
+            r["out"] = 0
+            R.append(r)
         # the same music with every note carrying the string / fret position a tuning hands out with its notes
         # (the lowest string that can sound it: notes of one chord often meet on one string)
         if c.get("bass") or len(p["tracks"][0]["bars"]) <= 2:
